@@ -8,6 +8,7 @@ import (
 	"os/exec"
 	"path/filepath"
 	"reflect"
+	"runtime"
 	"sort"
 	"strings"
 
@@ -95,6 +96,7 @@ type setOp struct {
 // SettingsWorker is `harness C20S --out <config dir>`: one REPL session. It reports the value of the
 // tracked variables after start-up (config.lisp evaluated) and then applies the ops given on stdin.
 func SettingsWorker(ctx *common.Ctx) {
+	runtime.LockOSThread() // strace counts the calls to inject a death at per thread
 	repl.SetConfigDir(ctx.OutDir)
 	s := repl.Scope()
 	loaded := map[string]string{}
@@ -127,6 +129,42 @@ func SettingsWorker(ctx *common.Ctx) {
 		}()
 	}
 	os.Exit(0)
+}
+
+// runSettingsSession runs one REPL session (`harness C20S`) on the configuration directory, optionally under
+// strace with the given arguments; it returns the settings the session started with and whether it started
+// and accepted every op.
+func runSettingsSession(self, dir string, ops []setOp, strace []string) (map[string]string, bool) {
+	var cmd *exec.Cmd
+	if strace != nil {
+		cmd = exec.Command("strace", append(append([]string{}, strace...), self, "C20S", "--out", dir)...)
+	} else {
+		cmd = exec.Command(self, "C20S", "--out", dir)
+	}
+	var in strings.Builder
+	for _, o := range ops {
+		b, _ := json.Marshal(o)
+		in.Write(b)
+		in.WriteByte('\n')
+	}
+	cmd.Stdin = strings.NewReader(in.String())
+	out, _ := cmd.Output()
+	lines := strings.Split(strings.TrimSpace(string(out)), "\n")
+	loaded := map[string]string{}
+	if len(lines) == 0 || json.Unmarshal([]byte(lines[0]), &loaded) != nil {
+		return nil, false
+	}
+	if strace == nil || !strings.Contains(strings.Join(strace, " "), "inject=") {
+		if len(lines)-1 != len(ops) {
+			return loaded, false
+		}
+		for _, l := range lines[1:] {
+			if !strings.HasPrefix(l, "set ") {
+				return loaded, false
+			}
+		}
+	}
+	return loaded, true
 }
 
 func settingsRuns(ctx *common.Ctx, self, base string) (terms []string, descs []any) {
